@@ -135,6 +135,22 @@ func (in *vfGWInst) Enabled() []string {
 			ok = !g.conn[f[1]] && !g.held[f[1]]
 		case "release", "failstream":
 			ok = g.held[f[1]]
+		case "holdy":
+			a, p := g.yieldState()
+			ok = true
+			for _, k := range append(a, p...) {
+				if k == f[1]+"|"+f[2] {
+					ok = false
+				}
+			}
+		case "rely":
+			_, p := g.yieldState()
+			ok = false
+			for _, k := range p {
+				if k == f[1]+"|"+f[2] {
+					ok = true
+				}
+			}
 		case "vrel":
 			ok = false
 			for _, p := range g.pendingVals() {
